@@ -191,7 +191,14 @@ fn armor_header_line(i: &[u8]) -> IResult<&[u8], BlockType> {
 
 /// Parses a single key value pair, for the header.
 fn key_value_pair(i: &[u8]) -> IResult<&[u8], (&str, &str)> {
-    let (i, key) = map_res(
+    // The key is looked for in the current line only: searching the whole remaining input
+    // makes parsing quadratic in the number of header lines.
+    let line_len = i
+        .iter()
+        .position(|b| *b == b'\n')
+        .map(|pos| pos + 1)
+        .unwrap_or(i.len());
+    let (_, key) = map_res(
         alt((
             complete(take_until1(":\r\n")),
             complete(take_until1(":\n")),
@@ -199,7 +206,8 @@ fn key_value_pair(i: &[u8]) -> IResult<&[u8], (&str, &str)> {
         )),
         str::from_utf8,
     )
-    .parse(i)?;
+    .parse(&i[..line_len])?;
+    let i = &i[key.len()..];
 
     // consume the ":"
     let (i, _) = tag(":")(i)?;
